@@ -193,6 +193,28 @@ def run_validate(ctx, nscen, all_modes):
 
 # ------------------------------------------------------------------ test command
 
+def expectations_directed(statuses, met):
+    """for every rule an expectation that the statement says is met (met=True: the first non-SKIP status among the definitions,
+    SKIP when all are SKIP) or unmet (a status no definition has)"""
+    exp, terms = {}, []
+    for name, sts in statuses:
+        nonskip = [x for x in sts if x != 'SKIP']
+        if met:
+            e = nonskip[-1] if nonskip else 'SKIP'          # the LAST non-SKIP status: losing a later definition shows
+            if len(set(nonskip)) > 1:
+                e = nonskip[0]
+        else:
+            cand = [x for x in ('PASS', 'FAIL') if x not in sts]
+            if not cand:
+                terms.append('ENoExpectation')
+                continue
+            e = cand[0]
+        exp[name] = e
+        ok = (e != 'SKIP' and e in sts) or (e == 'SKIP' and all(x == 'SKIP' for x in sts))
+        terms.append('EMatched' if ok else 'EMismatch')
+    return exp, terms
+
+
 def expectations_for(rng, statuses):
     """statuses: [(name, [status of every definition])]. returns (dict expectations, list expectation_result terms).
     An expectation is met iff some definition has the expected non-SKIP status, or all are SKIP when SKIP is expected
@@ -214,7 +236,10 @@ TEST_RULES = ['rule check when ok exists { ok == true }\nrule n_pos { n >= 0 }\n
               'rule a { ok exists }\nrule b when a { n == 1 }\nrule c {\n  not a\n}\n',
               'rule only { n in [1, 2, 3] }\n',
               'rule dup when ok exists { n == 1 }\nrule dup when n exists { n >= 0 }\nrule other { ok == true }\n',
-              'rule dup when zz exists { n == 1 }\nrule dup when ok exists { ok == true }\nrule dup { n == 5 }\n']
+              'rule dup when zz exists { n == 1 }\nrule dup when ok exists { ok == true }\nrule dup { n == 5 }\n',
+              # one name defined twice with ANOTHER rule between the definitions (grouping consecutive records is not enough)
+              'rule dup when ok == true { n >= 0 }\nrule mid { n exists }\nrule dup when ok == false { n == 99 }\nrule tail { ok exists }\nrule dup when ok !exists { n == 5 }\n',
+              'rule x { n >= 0 }\nrule y when ok exists { ok == true }\nrule x { n == 1 }\nrule y when ok !exists { n == 5 }\n']
 # the third input has a character outside the BMP: json.dumps writes it as a surrogate-pair escape, which is JSON but not YAML - a
 # spec file may be either (the reporters fall back from the YAML to the JSON reader)
 TEST_INPUTS = [{"ok": True, "n": 1}, {"ok": False, "n": 2}, {"n": 5, "note": "five \U0001f600"}, {"ok": True, "n": -1}]
@@ -240,6 +265,10 @@ def gen_test_scenario(rng):
 def run_test_cmd(ctx, nscen):
     rng = random.Random(ctx.seed * 31 + 7)
     scen = [gen_test_scenario(rng) for _ in range(nscen)]
+    # directed: every rules text of TEST_RULES on every input, once with expectations that are met and once with unmet ones
+    for rl in TEST_RULES:
+        for met in (True, False):
+            scen.append({'rules': rl, 'specs': [[{'input': inp, 'kind': 'plain', 'directed': met} for inp in TEST_INPUTS]]})
     pairs, index = [], []
     for k, sc in enumerate(scen):
         for a, spec in enumerate(sc['specs']):
@@ -264,7 +293,7 @@ def run_test_cmd(ctx, nscen):
                     uniq.append((n, []))
                 uniq[idx[n]][1].append(st)
             case['dups'] = False
-            case['exp'], case['terms'] = expectations_for(rng, uniq)
+            case['exp'], case['terms'] = expectations_for(rng, uniq) if 'directed' not in case else expectations_directed(uniq, case['directed'])
         else:
             case['exp'], case['terms'] = {'x': 'PASS'}, None
     coq_terms = {}
